@@ -85,11 +85,12 @@ type builder struct {
 	fontDescs map[string]Ref
 	baseImage Ref
 	baseForm  Ref
-	fieldRefs []Ref // top-level AcroForm fields
 	acroForm  Dict
 	helv      Ref
 
 	minVersion string
+	freed      []int        // numbers freed by updates and not yet reused
+	reused     map[int]bool // numbers that went through a free/reuse cycle
 }
 
 func (b *builder) coin() bool          { return b.rng.IntN(2) == 0 }
